@@ -21,9 +21,9 @@ func init() {
 		Explanation: "Decided: R08-astkinds — producer/consumer exhaustiveness over the AST sum types: every concrete type implementing ast.Expr is a case of compileExpr, every ast.Stmt a case of compileStmt, every left-hand-side type the grammar can produce is a case of compileAssignStmtLeft, and every operator string the grammar writes into Arithmetic/Relational/LogicalOpExpr is handled by the corresponding compile switch and by constFold; " +
 			"R08-panics — panic discipline on the load path: every explicit panic in package parse carries a value whose static type implements error (otherwise Parse's 'err, _ = e.(error)' turns a failure into (nil, nil)); every explicit panic reachable from lua.Compile is a *CompileError or one of four shape-guarded sentinels that R08-astkinds makes unreachable; Load wraps both error sources as ApiErrorSyntax and contains no panic; " +
 			"R08-eof — 'never hangs': every loop in the scanner that consumes input leaves the loop when the current character is EOF (decided by partial evaluation of the loop's exit conditions with every character-producing call returning -1; pure predicates isIdent/isDecimal/isDigit are evaluated on -1). " +
-			"NOT decided: run-time (index / nil / assertion) panics inside compile.go, termination of the generated LALR driver, that all Lua 5.1 texts are accepted.",
+			"R08-comment — a long-bracket comment ends at its closing bracket: skipComments consumes no further input after scanMultilineString has returned (program text after an inline --[[ ]] on the same line is kept). NOT decided: run-time (index / nil / assertion) panics inside compile.go, termination of the generated LALR driver, that all Lua 5.1 texts are accepted.",
 		Trusted: []string{"the goyacc-generated driver terminates on every token sequence"},
-		Rules:   []func(*Ctx){ruleAstKinds, ruleLoadPanics, ruleEOF, ruleTerminate},
+		Rules:   []func(*Ctx){ruleAstKinds, ruleLoadPanics, ruleEOF, ruleTerminate, ruleLongComment},
 	})
 }
 
@@ -430,7 +430,7 @@ func (e *eofEval) eval(v ssa.Value, env map[ssa.Value]pval, depth int) pval {
 			if e.charCall(ed) {
 				continue
 			}
-			if pm, ok := ed.(*ssa.Parameter); ok && pm.Name() == "ch" {
+			if pm, ok := ed.(*ssa.Parameter); ok && types.Identical(pm.Type(), types.Typ[types.Int]) {
 				continue
 			}
 			if ph2, ok := ed.(*ssa.Phi); ok && ph2 != x {
@@ -756,5 +756,42 @@ func ruleTerminate(c *Ctx) {
 			}
 			c.bad(R, key, pos, fmt.Sprintf("a loop of %s has no exit that every iteration evaluates against a counter, a link chain or an iterator: a source text that makes its condition stay true hangs the load (the jump-threading loop of patchCode is bounded by a hop count for this reason)", fname(fn)))
 		}
+	}
+}
+
+
+// ruleLongComment: 'meaning does not depend on comment forms'. A long comment --[[ … ]] may be followed
+// by program text on the same line; the short-comment loop (skip to end of line) must not run after it.
+func ruleLongComment(c *Ctx) {
+	const R = "R08-comment"
+	c.floor(R, 1)
+	p := c.P
+	fn := c.need(R, "parse", "(*Scanner).skipComments")
+	if fn == nil {
+		return
+	}
+	g := p.G(fn)
+	ml := p.Fn("parse", "(*Scanner).scanMultilineString")
+	next := p.Fn("parse", "(*Scanner).Next")
+	calls := callsTo(fn, ml)
+	if len(calls) == 0 || next == nil {
+		c.und(R, "skipComments:long-form", p.pos(fn.Pos()), "skipComments does not call scanMultilineString")
+		return
+	}
+	for i, cl := range calls {
+		b, idx := after(cl)
+		var hit ssa.Instruction
+		g.walk(b, idx, nil, func(in ssa.Instruction) bool {
+			if isCallTo(in, next) {
+				hit = in
+				return true
+			}
+			return false
+		})
+		pos := p.ipos(cl)
+		if hit != nil {
+			pos = p.ipos(hit)
+		}
+		c.check(hit == nil, R, fmt.Sprintf("skipComments:long-comment-ends-at-bracket#%d", i+1), pos, "no input is consumed after the long comment has been scanned", "skipComments goes on consuming input after a long-bracket comment has been scanned (it falls into the skip-to-end-of-line loop): program text that follows --[[ … ]] on the same line is discarded ('x = 1 --[[c]] x = 2' leaves x == 1)")
 	}
 }
